@@ -303,6 +303,45 @@ func c06Exec(scAny any, c *simcheck.Ctx) *simcheck.Violation {
 			return simcheck.V("load-not-deterministic", "two loads of the same tree gave %v and %v", first, got)
 		}
 	}
+	// a flaky disk while loading: the load may fail, it must still end (a loader that gives up
+	// on a module must release whoever waits for that module)
+	if c.Tapes.Get("flaky").Intn(3) == 0 {
+		pc := h.pc
+		pc.IOErrPM = []int{15, 40, 120}[c.Tapes.Get("flaky").Intn(3)]
+		h.w.events = nil
+		res := h.build(5, &opSpec{Op: "load-only"}, pc, nil)
+		if v := procFailure(res); v != nil {
+			if v.Class != simcheck.EngineError {
+				v.Msg = fmt.Sprintf("loading with file operations failing at %d per mille: %s", pc.IOErrPM, v.Msg)
+			}
+			return v
+		}
+		c.St.Count("loads_on_a_flaky_disk", 1)
+		if res.LoadErr != nil {
+			c.St.Count("loads_failed_on_a_flaky_disk", 1)
+		}
+		loading := map[string]int{}
+		for _, e := range h.w.events {
+			if e.Kind == "ModuleLoading" {
+				loading[e.Label]++
+			}
+		}
+		for l, n := range loading {
+			if n > 1 {
+				return simcheck.V("module-loaded-twice", "module %s was executed %d times in one load (on a flaky disk)", l, n)
+			}
+		}
+		h.w.events = nil
+		h.lastProj = nil
+		// and a fresh load afterwards behaves as before
+		res = h.build(6, &opSpec{Op: "load-only"}, h.pc, nil)
+		if v := procFailure(res); v != nil {
+			return v
+		}
+		if !cyclic && !broken && res.LoadErr != nil {
+			return simcheck.V("acyclic-load-failed", "after a load on a flaky disk, a fault-free load of the acyclic graph fails: %v", res.LoadErr)
+		}
+	}
 	if cyclic || broken || len(h.p.Modules) == 0 || h.lastProj == nil {
 		return nil
 	}
